@@ -71,11 +71,22 @@ Fixpoint idx_known_c11 (l : list synccase) (i : N) : list (N * N) :=
   | [] => []
   | x :: r => if negb (sync_ok_c11 x) && f7_match x then (i, 7) :: idx_known_c11 r (i + 1) else idx_known_c11 r (i + 1)
   end.
+(* C08: observation kind 8 = number of places where a connection's byte stream was not made of
+   whole packets or carried a QoS 0 PUBLISH nobody asked for (harness count over all connections) *)
+Definition sync_ok_c08 (c : synccase) : bool :=
+  match c with SyncCase _ calls =>
+    forallb (fun a => match a_kind a with 8 => a_cls a =? 0 | _ => true end) calls
+  end.
 Definition sync_run_c08 (l : list synccase) : list N * list N * list (N * N) :=
-  (idx_filter_s sync_agree l 0, [], []).
+  (idx_filter_s sync_agree l 0, idx_filter_s sync_ok_c08 l 0, []).
 Definition sync_run_c10 (l : list synccase) : list N * list N * list (N * N) :=
   (idx_filter_s sync_agree l 0, idx_filter_s sync_ok_c10 l 0, []).
 Definition sync_run_c11 (l : list synccase) : list N * list N * list (N * N) :=
   (idx_filter_s sync_agree l 0, idx_filter_s sync_ok_c11 l 0, idx_known_c11 l 0).
+(* C13: under a hostile broker nothing panics and nothing hangs *)
+Definition sync_ok_c13 (c : synccase) : bool :=
+  match c with SyncCase _ calls => forallb (fun a => negb (bad_call a)) calls end.
+Definition sync_run_c13 (l : list synccase) : list N * list N * list (N * N) :=
+  (idx_filter_s sync_agree l 0, idx_filter_s sync_ok_c13 l 0, []).
 Definition sync_debug (l : list synccase) :=
   map (fun c => match c with SyncCase tr _ => first_reject init_state tr 0 end) l.
